@@ -33,6 +33,7 @@ type Program struct {
 	tagSeq       map[string]bool
 	extraImports map[string]*types.Package
 	specOpts     map[string][]string
+	preds        map[string]*Pred
 	loadSeconds  float64
 }
 
@@ -92,7 +93,7 @@ func loadProgram(dir string, patterns []string, overlay map[string][]byte) (*Pro
 	P := &Program{dir: dir, pkgs: pkgs, prog: prog, contracts: map[string]*FuncContract{},
 		loopCache: map[*ssa.Function]map[*ssa.BasicBlock]*loopInfo{}, constGlobals: map[string]bool{},
 		globalInit: map[string][]constant.Value{}, globalType: map[string]types.Type{}, tagSeq: map[string]bool{}, extraImports: map[string]*types.Package{},
-		allPkgs: map[string]*packages.Package{}, specOpts: map[string][]string{}}
+		allPkgs: map[string]*packages.Package{}, specOpts: map[string][]string{}, preds: map[string]*Pred{}}
 	packages.Visit(pkgs, nil, func(p *packages.Package) { P.allPkgs[p.PkgPath] = p })
 	// build only repo packages (dependencies stay as declarations: calls into them are external)
 	for _, p := range P.allPkgs {
@@ -114,6 +115,9 @@ func loadProgram(dir string, patterns []string, overlay map[string][]byte) (*Pro
 					return nil, err
 				}
 				P.files = append(P.files, cf)
+				for k, v := range cf.Preds {
+					P.preds[p.PkgPath+"."+k] = v
+				}
 				for k, v := range cf.SpecOpts {
 					P.specOpts[p.PkgPath+"."+k] = v
 				}
